@@ -24,7 +24,7 @@ var randSrcRx = regexp.MustCompile(`basictl\.(RandomUint|RandomFieldMask|RandomS
 var coinSrcRx = regexp.MustCompile(`Random(Int|Long|Byte|Uint64)\(`)
 
 func checkC18(c *Check) {
-	c.Explanation = "Random filling, decided on every generated FillRandom (and Builtin…FillRandom) of the corpora generated with --generateRandomCode and on basictl: (1) termination — on the call graph of FillRandom functions, every cycle contains a call that is gated by a random draw which is 0 at the depth limit (a field-mask bit of a value from RandomFieldMask/RandomUint, a loop over a RandomSize count, a union arm other than arm 0 of `RandomUint % N`) and a call bracketed by IncreaseDepth/DecreaseDepth; arm 0 of a union is what is chosen at the limit and therefore never counts as gated; in basictl RandomUint returns 0 once curDepth >= maxDepth, RandomFieldMask and RandomSize derive from it, IncreaseDepth saturates at maxDepth and maxDepth >= 2; (2) Increase/DecreaseDepth are paired in each function; (3) validity — nat-sized collections are made with exactly their nat parameter and every mask comes from RandomFieldMask with a constant set of used bits (the tie to readers/writers is C04's presence table); (4) reproducibility — FillRandom functions call only other FillRandom/Reset functions, basictl's Random*/depth functions and builtins, never iterate over a map, and basictl's Random* draw only from the generator's own source (no time, global rand or crypto/rand)."
+	c.Explanation = "Random filling, decided on every generated FillRandom (and Builtin…FillRandom) of the corpora generated with --generateRandomCode and on basictl: (1) termination — on the call graph of FillRandom functions, every cycle contains a call that is gated by a random draw which is 0 at the depth limit (a field-mask bit of a value from RandomFieldMask/RandomUint, a loop over a RandomSize count, a union arm other than arm 0 of `RandomUint % N`) and a call bracketed by IncreaseDepth/DecreaseDepth; arm 0 of a union is what is chosen at the limit and therefore never counts as gated; in basictl RandomUint returns 0 once curDepth >= maxDepth, RandomFieldMask and RandomSize derive from it, IncreaseDepth/DecreaseDepth are exact inverses (no saturation on one side only) and maxDepth >= 2; (2) Increase/DecreaseDepth are paired in each function; (3) validity — nat-sized collections are made with exactly their nat parameter and every mask comes from RandomFieldMask with a constant set of used bits (the tie to readers/writers is C04's presence table); (4) reproducibility — FillRandom functions call only other FillRandom/Reset functions, basictl's Random*/depth functions and builtins, never iterate over a map, and basictl's Random* draw only from the generator's own source (no time, global rand or crypto/rand)."
 	c.NotCovered = "that every writer accepts every generated value beyond clauses (3) and C04; the distribution of values"
 	c.Trusted = []string{"go/types", "math/rand.Rand determinism for a fixed source"}
 	cycles := 0
@@ -332,12 +332,24 @@ func checkC18(c *Check) {
 			b.ob("random/depth-limit-positive", "NewRandGenerator", okDepth, "maxDepth = r.Uint32()%4 + 2 (at least 2), curDepth starts at 0")
 			b.ob("random/zero-at-depth-limit", "NewRandGenerator/default-handlers", okHandlers, "the default size and field-mask handlers are the identity (a zero draw stays zero)")
 		}
+		// the depth bracket is balanced: IncreaseDepth adds one unconditionally and DecreaseDepth takes one back (a guard
+		// against zero is harmless because brackets are paired). A counter that saturates on the way up but not on the
+		// way down drops below the real depth after a bracket entered at the limit, and the limit no longer holds.
+		incT, decT := "", ""
 		for _, m := range b.co.allFuncs() {
-			if m.Name() == "RandGenerator.IncreaseDepth" && strings.HasSuffix(m.Pkg.PkgPath, b.pkg) {
-				t := irText(buildFuncIR(m, b.funcs, b.co.Fset))
-				b.ob("random/depth-saturates", "RandGenerator.IncreaseDepth", t == "if (item.curDepth != item.maxDepth)\n  assign item.curDepth += #1\n", "curDepth grows by one until it equals maxDepth")
+			if !strings.HasSuffix(m.Pkg.PkgPath, b.pkg) {
+				continue
+			}
+			switch m.Name() {
+			case "RandGenerator.IncreaseDepth":
+				incT = irText(buildFuncIR(m, b.funcs, b.co.Fset))
+			case "RandGenerator.DecreaseDepth":
+				decT = irText(buildFuncIR(m, b.funcs, b.co.Fset))
 			}
 		}
+		incOK := incT == "assign item.curDepth += #1\n" || incT == "assign item.curDepth ++ \n"
+		decOK := regexp.MustCompile(`^(if (nz\(item\.curDepth\)|\(item\.curDepth != #0\)|\(#0 < item\.curDepth\))\n  )?assign item\.curDepth (-= #1|-- )\n$`).MatchString(decT)
+		b.ob("random/depth-bracket-balanced", "RandGenerator.IncreaseDepth/DecreaseDepth", incOK && decOK, fmt.Sprintf("IncreaseDepth adds one unconditionally: %v; DecreaseDepth takes one back (optionally guarded against zero): %v", incOK, decOK))
 		// draws come only from the generator's source
 		for name, fi := range b.byName {
 			if !strings.HasPrefix(name, "Random") {
